@@ -174,7 +174,11 @@ class Interp:
         except _Raise as r:
             return ('raise', r.v)
         if is_gen:
-            if len(self.trace) != before:
+            if len(self.trace) != before and not self.shared.get(
+                    'eager-generators'):
+                # the order of its effects relative to its consumer's is
+                # lost when it is run at once; callers that do not look at
+                # that order say so in shared['eager-generators']
                 raise Unsupported('generator with recorded effects')
             return ('return', list(env['__yields__']))
         return ('return', None)
@@ -361,6 +365,11 @@ class Interp:
     def iterate(self, v, force=True):
         if isinstance(v, (list, tuple, set, frozenset, dict, str)):
             return [self.force(x) for x in v] if force else list(v)
+        if isinstance(v, Obj) and isinstance(v.attrs.get('__items__'),
+                                             (list, tuple)):
+            return list(v.attrs['__items__'])     # a record / a sequence
+        if hasattr(v, '__next__') and not isinstance(v, (Sym, Obj)):
+            return list(v)                        # a concrete iterator
         raise Unsupported('iteration over %r' % (v,))
 
     def binop(self, op, a, b):
